@@ -189,7 +189,7 @@ def case_strategy(draw, variant):
     mp = draw(st.one_of(st.none(), st.integers(1, w)))
     mask = draw(S.mask_spec(n, kinds=("none", "none", "bool")))
     by_groups = op not in ("shift", "diff") and vkind not in "mM" and draw(st.sampled_from([False, False, True]))
-    return {"n": n, "warm": draw(S.warm()), "keys": keys, "vals": [vspec], "mask": mask, "op": op, "window": w, "min_periods": mp, "sort": True,
+    return {"n": n, "warm": draw(S.warm()), "prior_by_groups": draw(st.booleans()), "keys": keys, "vals": [vspec], "mask": mask, "op": op, "window": w, "min_periods": mp, "sort": True,
             "index_by_groups": by_groups,
             "render": {"vc": draw(st.sampled_from(["np", "series"])), "kc": "np", "index": draw(st.sampled_from(["default", "shuffled", "str"])), "mc": "np"}}
 
@@ -249,7 +249,12 @@ def check(case, ctx):
             raise Violation(f"dtype:{op}", f"{vspec['dtype']} values gave {res.dtype}")
     # group-sorted layout
     if case["index_by_groups"]:
-        res_g = call(gbops.build(case, keys, warm=False), case, vals[0], mask, by_groups=True)
+        gb_g = gbops.build(case, keys, warm=False)
+        if case.get("prior_by_groups") and n:
+            # an earlier group-sorted call on the same object with values under ANOTHER index (keys carry none)
+            other = pd.Series(np.zeros(n), index=pd.RangeIndex(100, 100 + n))
+            gb_g.rolling_sum(other, window=2, index_by_groups=True)
+        res_g = call(gb_g, case, vals[0], mask, by_groups=True)
         if not isinstance(res_g, pd.Series):
             raise Violation(f"by-groups:shape:{op}", f"{type(res_g).__name__}")
         sk = gbops.label_sort_key(case)
